@@ -1,4 +1,5 @@
 import LyModel.Yin.LemmasExt
+import LyModel.Yin.Card
 /-!
 # C10 — printed schemas re-parse to the same module: the YIN route, generic statement layer
 
@@ -341,5 +342,28 @@ theorem yin_stmt_roundtrip_fails_prefixed_kw :
     decide +kernel
   rw [e] at this
   simp [isErr] at this
+
+/-! ## module level: the printer's child statements against the parser's `subelems` rules (leaf, typedef, container) -/
+
+/-- **`yin_printer_respects_cardinality`.**  For `leaf`, `typedef` and `container`: whatever parsed statement the YIN printer is given
+    — i.e. for EVERY choice of multiplicities of the optional and repeatable children in the emission pattern generated from
+    `yprp_leaf` / `yprp_typedef` / `yprp_container` (with `yprp_node_common1/2` expanded) — the sequence of child statements it writes
+    satisfies the rules `yin_parse_content` enforces with the `subelems` table generated from `yin_parse_leaf` / `yin_parse_typedef` /
+    `yin_parse_container`: every child keyword is in the table, no `YIN_SUBELEM_UNIQUE` child occurs twice, every
+    `YIN_SUBELEM_MANDATORY` child occurs.  (General step `Card.realise_cardOk`; per statement an evaluation over the two generated
+    tables, re-checked whenever printer or parser change.) -/
+theorem yin_printer_respects_cardinality (counts : List Nat) :
+    Card.cardOk yinSubelems_leaf (Card.realise yinEmit_leaf counts) = true ∧
+    Card.cardOk yinSubelems_typedef (Card.realise yinEmit_typedef counts) = true ∧
+    Card.cardOk yinSubelems_container (Card.realise yinEmit_container counts) = true :=
+  ⟨Card.realise_cardOk _ _ (by decide +kernel) counts, Card.realise_cardOk _ _ (by decide +kernel) counts,
+   Card.realise_cardOk _ _ (by decide +kernel) counts⟩
+
+/-- non-vacuity: a leaf with `when`, two `if-feature`, `type`, `units`, three `must`, `default`, `config`, `description` -/
+example : (Card.realise yinEmit_leaf [0, 1, 2, 0, 1, 3, 1, 1, 0, 0, 1, 0]).length = 11 := by decide +kernel
+
+/-- the rules do reject something: a leaf without `type`, and one with two `units` -/
+example : Card.cardOk yinSubelems_leaf [[117, 110, 105, 116, 115]] = false := by decide +kernel
+example : Card.cardOk yinSubelems_leaf [[116, 121, 112, 101], [117, 110, 105, 116, 115], [117, 110, 105, 116, 115]] = false := by decide +kernel
 
 end LyModel.Props.C10Yin
